@@ -298,13 +298,13 @@ def init (a : Mat) (reg : Rat) : Normalizer :=
 /-- `_matvec` (1-d branch) -/
 def matvec (n : Normalizer) (v : Vec) : Vec :=
   let prod := n.adj.mulVec v
-  let prod := if n.reg > 0 then tab n.adj.nRow fun i => vget prod i + n.reg * vmean v * 1 else prod
+  let prod := if n.reg ≠ 0 then tab n.adj.nRow fun i => vget prod i + n.reg * vmean v * 1 else prod
   tab n.adj.nRow fun i => vget n.normDiag i * vget prod i
 
 /-- `_matvec` (2-d branch): `prod += reg * np.outer(ones(n_row), matrix.mean(axis=0))` -/
 def matmat (n : Normalizer) (x : Mat) : Mat :=
   let prod := n.adj.mul x
-  let prod := if n.reg > 0 then
+  let prod := if n.reg ≠ 0 then
       Mat.ofFn n.adj.nRow x.nCol fun i k => prod.get i k + n.reg * (1 * (vsum (x.col k) / (x.nRow : Rat)))
     else prod
   Mat.ofFn n.adj.nRow x.nCol fun i k => vget n.normDiag i * prod.get i k
@@ -313,20 +313,20 @@ def matmat (n : Normalizer) (x : Mat) : Mat :=
 def rmatvec (n : Normalizer) (v : Vec) : Vec :=
   let w := tab n.adj.nRow fun i => vget n.normDiag i * vget v i
   let prod := n.adj.transpose.mulVec w
-  if n.reg > 0 then tab n.adj.nCol fun j => vget prod j + n.reg * vsum w / (n.adj.nCol : Rat) * 1 else prod
+  if n.reg ≠ 0 then tab n.adj.nCol fun j => vget prod j + n.reg * vsum w / (n.adj.nCol : Rat) * 1 else prod
 
 /-- `_rmatvec` (2-d branch) -/
 def rmatmat (n : Normalizer) (x : Mat) : Mat :=
   let w := Mat.ofFn n.adj.nRow x.nCol fun i k => vget n.normDiag i * x.get i k
   let prod := n.adj.transpose.mul w
-  if n.reg > 0 then
+  if n.reg ≠ 0 then
     Mat.ofFn n.adj.nCol x.nCol fun j k => prod.get j k + n.reg * (1 * vsum (w.col k)) / (n.adj.nCol : Rat)
   else prod
 
-/-- the dense matrix a Normalizer denotes: `diag(normDiag) (A + [reg > 0] reg/n_col 1 1ᵀ)` -/
+/-- the dense matrix a Normalizer denotes: `diag(normDiag) (A + [reg ≠ 0] reg/n_col 1 1ᵀ)` -/
 def dense (n : Normalizer) : Mat :=
   Mat.ofFn n.adj.nRow n.adj.nCol fun i j =>
-    vget n.normDiag i * (n.adj.get i j + if n.reg > 0 then n.reg / (n.adj.nCol : Rat) else 0)
+    vget n.normDiag i * (n.adj.get i j + if n.reg ≠ 0 then n.reg / (n.adj.nCol : Rat) else 0)
 
 end Normalizer
 
@@ -360,7 +360,7 @@ def scale (l : Laplacian) (v : Vec) : Vec :=
 def matvec (l : Laplacian) (v : Vec) : Vec :=
   let v1 := l.scale v
   let prod := l.lap.mulVec v1
-  let prod := if l.reg > 0 then tab l.lap.nRow fun i => vget prod i + l.reg * (vget v1 i - vmean v1) else prod
+  let prod := if l.reg ≠ 0 then tab l.lap.nRow fun i => vget prod i + l.reg * (vget v1 i - vmean v1) else prod
   l.scale prod
 
 def scaleM (l : Laplacian) (x : Mat) : Mat :=
@@ -372,7 +372,7 @@ def scaleM (l : Laplacian) (x : Mat) : Mat :=
 def matmat (l : Laplacian) (x : Mat) : Mat :=
   let x1 := l.scaleM x
   let prod := l.lap.mul x1
-  let prod := if l.reg > 0 then
+  let prod := if l.reg ≠ 0 then
       Mat.ofFn l.lap.nRow x.nCol fun i k =>
         prod.get i k + l.reg * (x1.get i k - 1 * (vsum (x1.col k) / (x1.nRow : Rat)))
     else prod
@@ -388,11 +388,11 @@ def dvec (l : Laplacian) : Vec :=
   | some d => d
   | none => ones l.lap.nRow
 
-/-- dense: `N (L + [reg > 0] reg (I - 1 1ᵀ / n)) N`, `N = diag(normDiag)` or the identity -/
+/-- dense: `N (L + [reg ≠ 0] reg (I - 1 1ᵀ / n)) N`, `N = diag(normDiag)` or the identity -/
 def dense (l : Laplacian) : Mat :=
   Mat.ofFn l.lap.nRow l.lap.nRow fun i j =>
     vget l.dvec i * (l.lap.get i j +
-      (if l.reg > 0 then l.reg * ((if i = j then 1 else 0) - 1 / (l.lap.nRow : Rat)) else 0)) * vget l.dvec j
+      (if l.reg ≠ 0 then l.reg * ((if i = j then 1 else 0) - 1 / (l.lap.nRow : Rat)) else 0)) * vget l.dvec j
 
 end Laplacian
 
